@@ -41,6 +41,14 @@ Ltac inv_words :=
          | H : Forall word (_ :: _) |- _ => inversion H; clear H; subst
          end.
 
+Lemma call_identity_words opc st addr ioff isz roff rsz r st' :
+  call_identity opc st addr ioff isz roff rsz r = Next st' -> Forall word r -> Forall word (s_stk st').
+Proof.
+  unfold call_identity. cbv zeta.
+  repeat match goal with |- context [if ?b then _ else _] => destruct b end;
+    intros HE Hr; try discriminate; apply Next_inj in HE; rewrite <- HE; cbn [s_stk upd_call]; apply wpush_words; exact Hr.
+Qed.
+
 Section Refine.
   Variable jd2 : code -> Z -> bool.
   Variable hash : list Z -> Z.
@@ -71,6 +79,13 @@ Section Refine.
     exec spec_op jd2 hash E c input k opc st = Next st' -> Forall word (s_stk st').
   Proof.
     intros Hw. destruct k; cbn [exec];
+      try (lazymatch goal with
+           | |- context [call_identity] =>
+               destruct (s_stk st) as [|g0 [|a0 [|v0 [|i1 [|i2 [|i3 [|i4 r0]]]]]]] eqn:Es;
+               repeat match goal with |- context [if ?b then _ else _] => destruct b end;
+               intros HE; try discriminate;
+               (eapply call_identity_words; [exact HE|try rewrite Es in Hw; inv_words; first [assumption | constructor; assumption | constructor]])
+           end; fail 1);
       try (lazymatch goal with
            | |- context [set_nth] =>
                destruct (s_stk st) as [|t r] eqn:Es; intros HE; [discriminate|];
